@@ -37,10 +37,14 @@ def init_sobol(u0=np.ndarray, lb=np.ndarray, ub=np.ndarray, plb=np.ndarray, pub=
     if np.all(np.isfinite(u0)):
         # Seed depends on u0
         str_seed = u0[0 : np.minimum(11, len(u0))].astype(np.uint64)
-        if str_seed.ndim == 1:
-            str_seed = np.array2string(str_seed)[1:-1]
-        else:
-            str_seed = np.array2string(str_seed)[2:-2]
+        # (the string must not depend on the process-wide NumPy print options)
+        with np.printoptions(
+            threshold=1000, edgeitems=3, linewidth=75, formatter=None, legacy=False
+        ):
+            if str_seed.ndim == 1:
+                str_seed = np.array2string(str_seed)[1:-1]
+            else:
+                str_seed = np.array2string(str_seed)[2:-2]
         str_seed = np.array([ord(ch) for ch in str_seed])
         seed = np.prod(str_seed)
         seed = np.mod(seed, max_seed) + 1
